@@ -169,6 +169,20 @@ impl Table for Pptt {
     fn unwalkable(&self, ops: &[Op]) -> bool {
         ops.iter().any(|o| o.k == P_CACHE_DEFAULT)
     }
+    /// every private-resource count 0..=58 (node sizes 20..252), between other nodes so that later offsets depend on it
+    fn sweeps(&self, _level: u8) -> Vec<(String, Vec<Op>)> {
+        let mut v = vec![];
+        let pre = self.enable_all();
+        for n in 0..=58u64 {
+            let p = Op { k: P_PROC, shape: proc_shape(0, 1, if n % 2 == 0 { 0 } else { 7 }, 0x1f), fill: Fill::b(2).with(crate::fill::SZ, n) };
+            let mut ops = pre.clone();
+            ops.push(p);
+            ops.push(Op::new(P_CACHE, cache_shape(0xff, 1 + 7), 2));
+            ops.push(Op::new(P_PROC, proc_shape(1, 1 + 7, 7, 0x0a), 1));
+            v.push((format!("processor[{} resources]", n), ops));
+        }
+        v
+    }
     fn summary(&self, img: &[u8], ents: &[Ent]) -> Vec<u64> {
         ents.iter().filter(|e| e.ty == 0 && e.len >= 20).map(|e| rd32(img, e.off + 16) as u64).collect()
     }
@@ -182,7 +196,7 @@ impl Table for Pptt {
             let f = &op.fill;
             let s = op.shape;
             if op.k == P_PROC {
-                let (nres, psel, rsel, opts) = (cnt(s & 3, 58), (s >> 2) & 7, (s >> 5) & 7, (s >> 8) & 31);
+                let (nres, psel, rsel, opts) = (f.size().map(|n| n as u16).unwrap_or(cnt(s & 3, 58)), (s >> 2) & 7, (s >> 5) & 7, (s >> 8) & 31);
                 let parent = if psel == 0 { None } else { Some(&ph[sel(psel - 1, ph.len())]) };
                 let mut p = pptt::ProcessorNode::new(parent, f.u32(0));
                 for r in 0..nres {
@@ -220,7 +234,7 @@ impl Table for Pptt {
             if op.k == P_PROC {
                 // type 0, length, reserved(2), flags(4), parent(4), ACPI processor id(4), n private resources(4), resources
                 // flags: bit0 physical package, 1 ACPI id valid, 2 thread, 3 leaf, 4 identical implementation
-                let (nres, psel, rsel, opts) = (cnt(s & 3, 58), (s >> 2) & 7, (s >> 5) & 7, (s >> 8) & 31);
+                let (nres, psel, rsel, opts) = (f.size().map(|n| n as u16).unwrap_or(cnt(s & 3, 58)), (s >> 2) & 7, (s >> 5) & 7, (s >> 8) & 31);
                 let parent = if psel == 0 { 0 } else { out.ents[ph[sel(psel - 1, ph.len())]].off as u32 };
                 w.u8(0).u8(20 + 4 * nres as u8).u16(0).u32(opts as u32).u32(parent).u32(f.u32(0)).u32(nres as u32);
                 if psel != 0 {
@@ -306,6 +320,13 @@ pub const R_MMU: u8 = 1;
 pub const R_CMO: u8 = 2;
 pub const R_HART: u8 = 3;
 pub const ISA_STRINGS: [&str; 8] = ["rv64i", "rv64im", "", "r\u{e9}", "rv6\0", "rv64imafdch_zx00_zx01_zx02_zx03_zx04_zx05_zx06_zx07_zx08_zx09_zx10_zx11_zx12_zx13_zx14_zx15_zx16_zx17_zx18_zx19_zx20_zx21_zx22_zx23_zx24_zx25_zx26_zx27_zx28_zx29_zx30_zx31_zx32_zx33_zx34_zx35_zx36_zx37_zx38_zx39_zx40_zx41_zx42_zx43_zx44_zx45_zx46_zx47_zx48_zx49_zx50_zx51_zx52_zx53_zx54_zx55_zx56_zx57_zx58_zx59", "rv\0", "rv64imafdc_zicbom_zicboz_sstc"];
+/// the ISA string of an op: one of the fixed strings, or (sweep programs) a generated one of explicit length and tail
+pub fn isa_string(op: &Op) -> String {
+    match op.fill.size() {
+        Some(n) => crate::fill::gen_string("rv64imafdc_zicsr_zifencei_", n, op.fill.size2().unwrap_or(0)),
+        None => ISA_STRINGS[op.shape as usize % 8].to_string(),
+    }
+}
 pub fn hart_shape(isa_sel: u16, ncmo: u16, cmo_sel: u16) -> u16 {
     isa_sel | (ncmo << 3) | (cmo_sel << 5)
 }
@@ -373,7 +394,7 @@ impl Table for Rhct {
             let f = &op.fill;
             match op.k {
                 R_ISA => {
-                    let h = t.add_isa_string(ISA_STRINGS[op.shape as usize % 8]);
+                    let h = t.add_isa_string(Box::leak(isa_string(op).into_boxed_str()));
                     seen.push(parse_handle(format!("{:?}", h)));
                     ih.push(h);
                 }
@@ -388,7 +409,7 @@ impl Table for Rhct {
                 }
                 _ => {
                     let s = op.shape;
-                    let (isel, ncmo, csel) = (s & 7, cnt((s >> 3) & 3, 70), (s >> 5) & 7);
+                    let (isel, ncmo, csel) = (s & 7, f.size().map(|n| n as u16).unwrap_or(cnt((s >> 3) & 3, 70)), (s >> 5) & 7);
                     let mut h = rhct::HartInfoNode::new(f.u32(0), &ih[sel(isel, ih.len())]);
                     for r in 0..ncmo {
                         h = h.with_cmo(&chs[sel(csel, chs.len()).wrapping_add(r as usize) % chs.len()]);
@@ -415,7 +436,8 @@ impl Table for Rhct {
             match op.k {
                 R_ISA => {
                     // type 0, length(2), revision 1, ISA length incl. NUL (2), string, NUL, pad to even
-                    let s = ISA_STRINGS[op.shape as usize % 8].as_bytes();
+                    let isa = isa_string(op);
+                    let s = isa.as_bytes();
                     let mut len = 8 + s.len() + 1;
                     if len % 2 == 1 {
                         len += 1;
@@ -445,7 +467,7 @@ impl Table for Rhct {
                 _ => {
                     // type 65535, length, revision 1, number of offsets(2), ACPI processor UID(4), offsets(4 each)
                     let s = op.shape;
-                    let (isel, ncmo, csel) = (s & 7, cnt((s >> 3) & 3, 70), (s >> 5) & 7);
+                    let (isel, ncmo, csel) = (s & 7, f.size().map(|n| n as u16).unwrap_or(cnt((s >> 3) & 3, 70)), (s >> 5) & 7);
                     let n = 1 + ncmo as usize;
                     w.u16(0xffff).u16((12 + 4 * n) as u16).u16(1).u16(n as u16).u32(f.u32(0));
                     let tgt = ih[sel(isel, ih.len())];
@@ -507,6 +529,27 @@ impl Table for Rhct {
             }
         }
         Ok(v)
+    }
+    /// every ISA string length 0..=300 (node sizes across 256), strings with whitespace / NUL heads and tails at even and
+    /// odd lengths, every hart-info offset count 0..=70; each followed by nodes whose offsets depend on it
+    fn sweeps(&self, _level: u8) -> Vec<(String, Vec<Op>)> {
+        use crate::fill::{SX, SZ};
+        let mut v = vec![];
+        let isa = |n: u64, t: u64| Op { k: R_ISA, shape: 0, fill: Fill::b(2).with(SZ, n).with(SX, t) };
+        let tail_of = |n: u64, t: u64| vec![isa(n, t), Op::new(R_CMO, 0, 2), Op::new(R_ISA, 1, 2), Op::new(R_HART, hart_shape(7, 1, 7), 2), Op::new(R_HART, hart_shape(0, 1, 0), 1)];
+        for n in 0..=300u64 {
+            v.push((format!("isa[len {}]", n), tail_of(n, 0)));
+        }
+        for t in 1..16u64 {
+            for n in [0u64, 1, 4, 5, 6, 7, 28, 29, 245, 246] {
+                v.push((format!("isa[len {} tail {}]", n, t), tail_of(n, t)));
+            }
+        }
+        for n in 0..=70u64 {
+            let h = Op { k: R_HART, shape: hart_shape(0, 0, if n % 2 == 0 { 0 } else { 7 }), fill: Fill::b(2).with(SZ, n) };
+            v.push((format!("hart[{} cmo offsets]", n), vec![Op::new(R_ISA, 0, 2), Op::new(R_CMO, 0, 2), Op::new(R_CMO, 0, 1), h, Op::new(R_ISA, 1, 2), Op::new(R_HART, hart_shape(7, 1, 7), 1)]));
+        }
+        v
     }
     fn counts(&self, img: &[u8], ents: &[Ent]) -> Result<(), String> {
         let n = rd32(img, 48) as usize;
@@ -574,8 +617,23 @@ pub fn iommu_shape(nw: u16, wires_some: bool, base: bool, pci: bool, prox: bool)
 pub fn map_shape(nm: u16, some: bool, selv: u16, name: u16) -> u16 {
     nm | (some as u16) << 2 | (selv << 3) | (name << 6)
 }
+/// number of id mappings of a root-complex / platform op: shape code, or (root complex sweep programs) the explicit size
+fn nmaps(f: &Fill, base: u8, shape: u16) -> u16 {
+    if base == 4 {
+        f.size().map(|n| n as u16).unwrap_or(cnt(shape & 3, 13))
+    } else {
+        cnt(shape & 3, 13)
+    }
+}
+/// platform device name: one of the fixed names, or (sweep programs) a generated one of explicit length and tail
+pub fn plat_name(op: &Op) -> String {
+    match op.fill.size() {
+        Some(n) => crate::fill::gen_string("\\_SB_.DEV0.", n, op.fill.size2().unwrap_or(0)),
+        None => PLAT_NAMES[((op.shape >> 6) & 7) as usize % PLAT_NAMES.len()].to_string(),
+    }
+}
 fn real_maps(f: &Fill, base: u8, shape: u16, hs: &[rimt::IommuOffset]) -> Option<Vec<rimt::IdMapping>> {
-    let (nm, some, sv) = (cnt(shape & 3, 13), shape & 4 != 0, (shape >> 3) & 7);
+    let (nm, some, sv) = (nmaps(f, base, shape), shape & 4 != 0, (shape >> 3) & 7);
     if !some {
         return None;
     }
@@ -588,7 +646,7 @@ fn real_maps(f: &Fill, base: u8, shape: u16, hs: &[rimt::IommuOffset]) -> Option
     Some(v)
 }
 fn ref_maps(w: &mut W, out: &mut RefOut, f: &Fill, base: u8, shape: u16, hs: &[usize]) {
-    let (nm, some, sv) = (cnt(shape & 3, 13), shape & 4 != 0, (shape >> 3) & 7);
+    let (nm, some, sv) = (nmaps(f, base, shape), shape & 4 != 0, (shape >> 3) & 7);
     if !some {
         return;
     }
@@ -670,7 +728,7 @@ impl Table for Rimt {
             let s = op.shape;
             match op.k {
                 I_IOMMU => {
-                    let (nw, ws, bs, ps, xs) = (cnt(s & 3, 30), s & 4 != 0, s & 8 != 0, s & 16 != 0, s & 32 != 0);
+                    let (nw, ws, bs, ps, xs) = (f.size().map(|n| n as u16).unwrap_or(cnt(s & 3, 30)), s & 4 != 0, s & 8 != 0, s & 16 != 0, s & 32 != 0);
                     let wires = if ws {
                         Some((0..nw).map(|w| { let b = 7 + 4 * (w % 4) as u8; rimt::InterruptWire::new(f.u32(b), f.bool(b + 1), f.bool(b + 2), f.u16(b + 3)) }).collect())
                     } else {
@@ -686,7 +744,7 @@ impl Table for Rimt {
                 }
                 _ => {
                     let maps = real_maps(f, 1, s, &hs);
-                    t.add_platform(rimt::Platform::new(f.u16(0), PLAT_NAMES[((s >> 6) & 7) as usize % PLAT_NAMES.len()].to_string(), maps));
+                    t.add_platform(rimt::Platform::new(f.u16(0), plat_name(op), maps));
                 }
             }
             obs(i + 1, &t, &[]);
@@ -706,7 +764,7 @@ impl Table for Rimt {
             let ei = out.ents.len();
             match op.k {
                 I_IOMMU => {
-                    let (nw, ws, bs, ps, xs) = (cnt(s & 3, 30), s & 4 != 0, s & 8 != 0, s & 16 != 0, s & 32 != 0);
+                    let (nw, ws, bs, ps, xs) = (f.size().map(|n| n as u16).unwrap_or(cnt(s & 3, 30)), s & 4 != 0, s & 8 != 0, s & 16 != 0, s & 32 != 0);
                     let nw = if ws { nw } else { 0 };
                     // type 0, revision 1, length(2), id(2), model(2)=0, base(8), flags(4: bit0 PCI, bit1 PXM valid),
                     // segment(2), BDF(2), proximity domain(4), n wires(2), wire array offset(2)=32, wires(8 each)
@@ -725,7 +783,7 @@ impl Table for Rimt {
                     out.ents.push(Ent { off: o, ty: 0, len: w.len() - o });
                 }
                 I_RC => {
-                    let nm = if s & 4 != 0 { cnt(s & 3, 13) } else { 0 };
+                    let nm = if s & 4 != 0 { nmaps(f, 4, s) } else { 0 };
                     // type 1, revision 1, length(2), id(2), segment(2), flags(4: bit0 ATS, bit1 PRI), map offset(2)=16, n maps(2)
                     w.u8(1).u8(1).u16(16 + 20 * nm).u16(f.u16(0)).u16(f.u16(1)).u32(f.bool(2) as u32 | (f.bool(3) as u32) << 1).u16(16).u16(nm);
                     out.ents.push(Ent { off: o, ty: 1, len: 0 });
@@ -733,8 +791,9 @@ impl Table for Rimt {
                     out.ents[ei].len = w.len() - o;
                 }
                 _ => {
-                    let nm = if s & 4 != 0 { cnt(s & 3, 13) } else { 0 };
-                    let name = PLAT_NAMES[((s >> 6) & 7) as usize % PLAT_NAMES.len()].as_bytes();
+                    let nm = if s & 4 != 0 { nmaps(f, 1, s) } else { 0 };
+                    let pname = plat_name(op);
+                    let name = pname.as_bytes();
                     // type 2, revision 1, length(2), id(2), reserved(2), map offset(2)=12+name+NUL, n maps(2), name, NUL, maps
                     let mo = 12 + name.len() + 1;
                     w.u8(2).u8(1).u16((mo + 20 * nm as usize) as u16).u16(f.u16(0)).u16(0).u16(mo as u16).u16(nm).b(name).u8(0);
@@ -747,6 +806,32 @@ impl Table for Rimt {
         ref_finish(&mut w);
         out.image = w.0;
         out
+    }
+    /// every wire count 0..=40, mapping count 0..=20, name length 0..=300 and names with whitespace / NUL heads and tails;
+    /// each between nodes whose offsets depend on it
+    fn sweeps(&self, _level: u8) -> Vec<(String, Vec<Op>)> {
+        use crate::fill::{SX, SZ};
+        let mut v = vec![];
+        let io = Op::new(I_IOMMU, iommu_shape(1, true, true, true, true), 2);
+        let rc = Op::new(I_RC, map_shape(1, true, 7, 0), 1);
+        for n in 0..=40u64 {
+            let x = Op { k: I_IOMMU, shape: iommu_shape(0, true, true, n % 2 == 0, true), fill: Fill::b(2).with(SZ, n) };
+            v.push((format!("iommu[{} wires]", n), vec![io, x, io, rc]));
+        }
+        for n in 0..=20u64 {
+            let x = Op { k: I_RC, shape: map_shape(0, true, if n % 2 == 0 { 0 } else { 7 }, 0), fill: Fill::b(2).with(SZ, n) };
+            v.push((format!("root-complex[{} mappings]", n), vec![io, io, x, io, rc]));
+        }
+        let plat = |n: u64, t: u64, nm: u16| Op { k: I_PLAT, shape: map_shape(nm, true, 7, 0), fill: Fill::b(2).with(SZ, n).with(SX, t) };
+        for n in 0..=300u64 {
+            v.push((format!("platform[name {}]", n), vec![io, plat(n, 0, (n % 3) as u16), io, rc]));
+        }
+        for t in 1..16u64 {
+            for n in [0u64, 1, 7, 8, 241, 242] {
+                v.push((format!("platform[name {} tail {}]", n, t), vec![io, plat(n, t, 1), io, rc]));
+            }
+        }
+        v
     }
     fn walk(&self, img: &[u8]) -> Result<Vec<Ent>, String> {
         if img.len() < 48 {
@@ -923,6 +1008,21 @@ impl Table for Viot {
             }
         }
         v
+    }
+    /// PCI ranges / MMIO endpoints related to the previous one (next bus range, identical range, same range behind
+    /// another IOMMU, adjacent MMIO endpoints), interleaved with IOMMU nodes
+    fn sweeps(&self, _level: u8) -> Vec<(String, Vec<Op>)> {
+        let pr = |b0: u64, b1: u64, sv: u16| Op { k: V_PCI_RANGE, shape: sv, fill: Fill::b(0).with(1, b0).with(5, b1) };
+        let ep = |id: u64, base: u64, sv: u16| Op { k: V_MMIO_EP, shape: sv, fill: Fill::b(0).with(0, id).with(1, base) };
+        let (pi, mi) = (Op::new(V_PCI_IOMMU, 0, 2), Op::new(V_MMIO_IOMMU, 0, 2));
+        vec![
+            ("adjacent-bus-ranges".into(), vec![pi, pr(0, 0x1f, 0), pr(0x20, 0x3f, 0), pr(0x40, 0xff, 0), pr(0, 0x1f, 0)]),
+            ("identical-ranges".into(), vec![pi, pr(0, 0xff, 0), pr(0, 0xff, 0), pr(0, 0xff, 0)]),
+            ("same-range-other-iommu".into(), vec![pi, mi, pr(0x10, 0x1f, 0), pr(0x10, 0x1f, 7), pr(0x20, 0x2f, 0), pr(0x20, 0x2f, 7)]),
+            ("adjacent-after-iommu".into(), vec![pi, pr(0, 0x1f, 0), mi, pr(0x20, 0x3f, 0), pi, pr(0x40, 0x5f, 7)]),
+            ("adjacent-endpoints".into(), vec![mi, ep(1, 0x1000_0000, 0), ep(2, 0x1000_1000, 0), ep(3, 0x1000_2000, 0), ep(3, 0x1000_2000, 0)]),
+            ("endpoint-equal-to-iommu-base".into(), vec![Op { k: V_MMIO_IOMMU, shape: 0, fill: Fill::b(0).with(0, 0x1000_0000) }, ep(0, 0x1000_0000, 0), ep(0x1000_0000, 0, 0)]),
+        ]
     }
     fn run(&self, c: &Ctor, ops: &[Op], obs: &mut dyn FnMut(usize, &dyn Aml, &[u32])) {
         let mut t = viot::VIOT::new(c.oem_id(), c.oem_table_id(), c.oem_rev());
